@@ -306,7 +306,7 @@ pub fn explore(ctx: &Ctx, obs: &Observer) {
                 }
             }
             Tier::Thorough => {
-                run_deep(ctx, cfg, 1, 128, 1, obs, &edges);
+                run_deep(ctx, cfg, 1, if cfg.lg_k <= 6 { 128 } else { 48 }, 1, obs, &edges);
                 if cfg.lg_k <= 6 {
                     run_deep(ctx, cfg, 2, 12, 12, obs, &edges);
                 }
